@@ -501,6 +501,30 @@ func runSvcWith(s SvcScript, shared *sharedcomponent.Map[*compCfg, *svcComp], sh
 		}
 	}
 
+	// (1b) identity, derived from the configuration: every (component, pipeline) pair is represented by
+	// an instance id that lists the pipeline, and no instance lists a pipeline its component is not part of
+	wantPairs := map[string]map[string]bool{
+		component.KindExtension.String() + "|" + component.NewID(typW).String(): {},
+	}
+	if s.SecondExt {
+		wantPairs[component.KindExtension.String()+"|"+component.NewID(typX).String()] = map[string]bool{}
+	}
+	for _, sg := range s.Signals {
+		wantPairs[component.KindReceiver.String()+"|"+component.NewIDWithName(typR, sg).String()] = map[string]bool{sg: true}
+		wantPairs[component.KindProcessor.String()+"|"+component.NewIDWithName(typP, sg).String()] = map[string]bool{sg: true}
+		wantPairs[component.KindExporter.String()+"|"+component.NewIDWithName(typE, sg).String()] = map[string]bool{sg: true}
+		if s.Shared {
+			ck := component.KindReceiver.String() + "|" + component.NewID(typS).String()
+			if wantPairs[ck] == nil {
+				wantPairs[ck] = map[string]bool{}
+			}
+			wantPairs[ck][sg] = true
+		}
+	}
+	if fd := identityOracle("svc", wantPairs, keys, startErr == nil); fd != nil {
+		return true, key, fd
+	}
+
 	// (2) non-shared instances: the delivered sequence is the automaton's output for the
 	// reports that were made (service automation per docs "Automation" + the component's own)
 	rejAfterAcc := false
